@@ -239,7 +239,7 @@ impl G<'_> {
                     let mut r = self.expr(T::I, d1);
                     // (a field of an anonymous literal with a type of its own, or of a literal of a generic
                     // record, is as open as the literal in it)
-                    let own_type = matches!(&r, E::Field(rec, _) if matches!(**rec, E::Record(rk, _) if rk.anon || matches!(rk.ty, T::G | T::H)));
+                    let own_type = matches!(&r, E::Field(rec, _) if has_open_literal(rec));
                     if own_type || !matches!(r, E::Host(..) | E::Call(..) | E::Field(..)) && !matches!(r, E::Var(x) if self.annotated[x]) {
                         // a literal (or a block ending in one) has type `{integer}`, which has no methods:
                         // give the receiver a definite type
@@ -561,6 +561,12 @@ impl G<'_> {
         self.scope.truncate(mark);
         Blk { stmts, last }
     }
+}
+
+/// Does the expression contain a record literal whose field types are not fixed by a declaration
+/// (anonymous, or of a generic record)? A field of it may still be `{integer}`.
+fn has_open_literal(e: &E) -> bool {
+    matches!(e, E::Record(rk, _) if rk.anon || matches!(rk.ty, T::G | T::H)) || children(e).into_iter().any(has_open_literal)
 }
 
 /// Is the expression an `Option.None` whose payload type nothing anchors?
